@@ -99,6 +99,8 @@ def project_interp(run) -> dict:
             if pending_edit is not None:
                 pe, pending_edit = pending_edit, None
                 pe["macroLines"] = sorted(set(old_tree_macro))
+                # a line that is new in this edit and lies inside a macro that had started running
+                pe["addedInMacro"] = pe.pop("inMacro", "") in set(pe["preF"].get("macroStarted", []))
                 pe["postLocked"] = [{"n": n, "depth": tree.facts(n)["depth"], "name": tree.facts(n)["name"], "inj": tree.facts(n)["inj"]}
                                     for n in pe["postF"]["locked"]]
                 pe["postReg"] = [{"n": n, "blocks": tree.facts(n)["blocks"]} for n in pe["postF"]["registered"]]
@@ -165,7 +167,7 @@ def project_interp(run) -> dict:
                            "removed": e.get("removed", []), "unchanged": bool(e.get("unchanged", False)),
                            "preM": _ms(e.get("preM")), "postM": _ms(e.get("postM")),
                            "preF": e.get("preF", _nof()), "postF": e.get("postF", _nof()),
-                           "lines": [x[0] for x in e.get("lines", [])]})
+                           "lines": [x[0] for x in e.get("lines", [])], "inMacro": e.get("inMacro", "")})
         elif k == "tickEnd":
             rl = e["runlog"]
             done_nodes = sorted({item_node.get(i["id"], "") for i in rl if i["state"] == "completed"})
